@@ -3,7 +3,7 @@
    (2) the registration order only permutes the columns: names, limits, outcomes are the same and every
        aggregate current is the same number (over Q, up to ==). *)
 From Coq Require Import List Bool Arith Lia ZArith QArith Qabs String Permutation Setoid.
-From ACN Require Import Base.Num Base.ListX Model.Current Model.Network Proofs.Current Proofs.Network.
+From ACN Require Import Base.Num Base.ListX Gen.C12Shape Model.Current Model.Network Proofs.Current Proofs.Network.
 Import ListNotations.
 Open Scope nat_scope.
 Set Default Proof Using "Type".
@@ -21,7 +21,8 @@ Section Failed.
     end.
   Proof.
     intros o n e. destruct o; simpl.
-    - unfold register_evse. destruct (cmat n); simpl; intros H; [reflexivity | discriminate].
+    - unfold register_evse. destruct (cmat n); simpl; [intros; reflexivity|].
+      destruct (col_pos s (stations n)); [destruct reregistration_overwrites|]; simpl; intros H; discriminate.
     - unfold add_constraint. destruct (existsb _ _); simpl; intros H; [reflexivity | discriminate].
     - unfold remove_constraint. destruct (negb _); simpl; intros H; [reflexivity | discriminate].
     - unfold update_constraint. destruct (nmem name (cnames n)); simpl; [|reflexivity].
